@@ -150,6 +150,14 @@ structure ListItem where
   newLines : Bool
   deriving Repr, DecidableEq
 
+/-- `opt.as_ref().map_or(false, p)` -/
+def optAny (p : List Char → Bool) : Option (List Char) → Bool
+  | some s => p s
+  | none => false
+
+/-- `comment.trim_start().starts_with("//")` -/
+def startsWithSlashes (comment : List Char) : Bool := startsWith ['/', '/'] (trimStart comment)
+
 namespace ListItem
 
 /-- `ListItem::from_str` -/
@@ -160,19 +168,16 @@ def innerAsRef (self : ListItem) : List Char := self.item.getD []
 
 /-- lists.rs:149-156 -/
 def isDifferentGroup (self : ListItem) : Bool :=
-  hasNewline self.innerAsRef || self.preComment.isSome ||
-    (match self.postComment with | some s => hasNewline s | none => false)
+  hasNewline self.innerAsRef || self.preComment.isSome || optAny hasNewline self.postComment
 
 /-- lists.rs:158-168 -/
 def isMultiline (self : ListItem) : Bool :=
-  hasNewline self.innerAsRef ||
-    (match self.preComment with | some s => hasNewline s | none => false) ||
-    (match self.postComment with | some s => hasNewline s | none => false)
+  hasNewline self.innerAsRef || optAny hasNewline self.preComment ||
+    optAny hasNewline self.postComment
 
 /-- lists.rs:170-178 -/
 def hasSingleLineComment (self : ListItem) : Bool :=
-  (match self.preComment with | some c => startsWith ['/', '/'] (trimStart c) | none => false) ||
-    (match self.postComment with | some c => startsWith ['/', '/'] (trimStart c) | none => false)
+  optAny startsWithSlashes self.preComment || optAny startsWithSlashes self.postComment
 
 /-- lists.rs:180-182 -/
 def hasComment (self : ListItem) : Bool := self.preComment.isSome || self.postComment.isSome
